@@ -157,7 +157,7 @@ REGIONS = [
 
 
 def fill(tmpl, text):
-    return tmpl.replace("@", text)
+    return tmpl.replace("@", " " + text + " ")
 
 
 def parse(text):
